@@ -41,7 +41,7 @@ CHECKS = {
     "C07": ("E2-history-explorer", "model_checking",
             "bounded exhaustive exploration of insert/delete/compact/reopen histories on the real engine vs a plain multiset model, checked after every step",
             "All operation sequences of the depth bound over overlapping insert batches, predicate deletes, forced compaction and reopen are executed; after every step the table must equal the model, DML counts must match, and the final ordered scan must be sorted.",
-            "Bounded: depth 4 (quick) / 5 (thorough) from the empty table and 3 / 4 from a churned start state (two delete vectors per row-set, compacted to nothing, reopened); one table (pk / no pk); compaction driven through the real compactor by a paused clock.",
+            "Bounded: depth 4 (quick) / 5 (thorough) from the empty table and 3 / 4 from a churned start state (two delete vectors per row-set, compacted to nothing, reopened); one table (pk / no pk); a second alphabet with a 40-row batch (a row-set of several blocks) and deletes covering whole blocks of it, depth 3 / 4; compaction driven through the real compactor by a paused clock.",
             "DESIGN.md §4 C07"),
     "C08": ("E4-gate-scheduler", "model_checking",
             "stateless model checking of the implementation: exhaustive exploration of task interleavings at instrumented yield points under a controlled scheduler, preemption-bounded (CHESS-style), with a per-state invariant",
@@ -56,7 +56,7 @@ CHECKS = {
     "C10": ("E4-gate-scheduler", "model_checking",
             "stateless model checking of the implementation (preemption-bounded schedule exploration at yield points) with a brute-force serializability oracle over a reference model",
             "For each multi-session workload every schedule within the preemption bound is executed; the acknowledged statements must admit a serial order (respecting session order) that reproduces every observed result and the final tables on the reference model; no session or task panics, no deadlock, shutdown and reopen succeed and agree.",
-            "Bounded: 30 (quick) / 32 workloads incl. views / indexes racing CREATE TABLE and two DELETEs of the same / of different rows; 13 of them also on the memory engine (gates of Database::run only); in the two-DELETE workloads the point at which each transaction pins its snapshot (gate txn.start) is a scheduling choice; 2 sessions (quick) / up to 3 (thorough), <= 2 statements each, preemption bound 2/3. The clause about free-running multi-threaded runs is NOT decided (gate interleavings on a current-thread runtime only).",
+            "Bounded: 30 (quick) / 32 workloads incl. views / indexes racing CREATE TABLE and two DELETEs of the same / of different rows; 13 of them also on the memory engine (gates of Database::run only); in the two-DELETE workloads the point at which each transaction pins its snapshot (gate txn.start) is a scheduling choice; every commit can be preempted between building its snapshot and the manifest append (gate commit.built); 2 sessions (quick) / up to 3 (thorough), <= 2 statements each, preemption bound 2/3. The clause about free-running multi-threaded runs is NOT decided (gate interleavings on a current-thread runtime only).",
             "DESIGN.md §3 E4, §4 C10"),
     "C13": ("E1-small-scope", "exploration",
             "exhaustive small-scope enumeration of key-range predicates x table layouts, against rows computed from the known contents (and the unoptimised full scan)",
@@ -71,7 +71,7 @@ CHECKS = {
     "C15": ("E3-fault-enumerators", "fault_enumeration",
             "exhaustive single-fault injection at every (operator, output item, occurrence) position x {error, panic} of every statement shape",
             "For each statement shape and engine one fault-free run lists every position at which an operator hands an item (or end of stream) to its consumers; one fault is then injected at every position; the statement must return Err or the complete fault-free answer, and a failed DML must leave the tables unchanged (also after reopen).",
-            "Bounded: 21 statement shapes (incl. nested-loop semi / anti joins), 2-3 engine configurations, 2300-row inputs (3 chunks) and a 20-chunk input (fault positions beyond an operator's 16-slot output channel), single faults; faults on the committing DML operator's own output are excluded (after the commit point).",
+            "Bounded: 24 statement shapes (incl. nested-loop semi / anti joins and three COPY .. TO exports of a query / table / join), 2-3 engine configurations, 2300-row inputs (3 chunks) and a 20-chunk input (fault positions beyond an operator's 16-slot output channel), single faults; faults on the committing DML operator's own output are excluded (after the commit point).",
             "DESIGN.md §3 E3, §4 C15"),
     "C16": ("E1-small-scope", "exploration",
             "exhaustive small-scope enumeration: (a) runtime vs statically derived column types over the statement corpus, (b) INSERT sources x column types x constraints, (c) multi-row VALUES lists vs the same rows inserted one by one, (d) INSERT column lists in every permutation",
@@ -101,7 +101,7 @@ CHECKS = {
     "C19": ("E1-small-scope", "exploration",
             "exhaustive enumeration of all pairs/triples of a boundary value set per type, cross-checking every relation the engine derives from values",
             "For each type all pairs and triples of V_T are checked for the equivalence and total-order laws of = and <, and ORDER BY (asc/desc), GROUP BY, DISTINCT, hash join, MIN/MAX and the primary-key storage order (before/after compaction) must describe the same relations; printed values re-inserted as text must be equal.",
-            "Bounded: 12 types (incl. VECTOR(3)), 4-12 values each (intervals with a sub-day part, blobs with quotes and backslashes); NaN/infinity literals not reachable; DataValue-level Hash is checked through GROUP BY / hash join behaviour.",
+            "Bounded: 12 types (incl. VECTOR(3)), 4-12 values each (intervals with a sub-day part, blobs with quotes and backslashes); the six comparison operators and hash-join equality between columns of two different integer types against integer comparison (all ordered type pairs, values beyond the narrower range); NaN/infinity literals not reachable; DataValue-level Hash is checked through GROUP BY / hash join behaviour.",
             "DESIGN.md §4 C19"),
     "C20": ("E1-small-scope", "exploration",
             "exhaustive small-scope enumeration of column types x boundary cell values x CSV options x engines, round-trip oracle",
